@@ -220,7 +220,7 @@ func (r *runner) waitDrained(gen int) {
 }
 
 func newRunner(e *env, sc scenario) *runner {
-	r := &runner{env: e, sc: sc, opened: map[int]int{}, closed: map[int]int{}, firstP: map[int]bool{}, injected: map[int]bool{}, tokens: map[string]*token{}, curGen: -1, sdSeen: map[int]map[int]bool{}}
+	r := &runner{env: e, sc: sc, opened: map[int]int{}, closed: map[int]int{}, firstP: map[int]bool{}, ctxCancelSeen: map[int]bool{}, injected: map[int]bool{}, tokens: map[string]*token{}, curGen: -1, sdSeen: map[int]map[int]bool{}}
 	for i, ts := range sc.toks {
 		id := fmt.Sprintf("k%d", i)
 		r.tokens[id] = &token{id: id, spec: ts, accepted: make(chan int, 1), release: make(chan struct{}), done: make(chan [2]string, 1), acceptor: -1}
@@ -462,7 +462,7 @@ func (r *runner) markStartFailed(k int) {
 	defer r.evMu.Unlock()
 	at := len(r.events)
 	for i, ev := range r.events {
-		if ev.load == k && ev.gen == k && (ev.kind == 'T' || ev.kind == 'C' || ev.kind == 'X') {
+		if ev.load == k && ev.gen == k && (ev.kind == 'T' || ev.kind == 'C' || ev.kind == 'X' || ev.kind == 'K') {
 			at = i
 			break
 		}
